@@ -27,6 +27,10 @@ CHECKS = {
   text="Coq model SearchDriver of Search::Search (depth selection), Search::go and Search::iter_search with its aspiration loop; the root call of Search::search and both limit polls are ORACLES (any value, any pv head, any stop flag, any poll answer, a stop before the thread starts). Theorems for all oracles: go yields ONE answer and it is a root move (the legal move list, or the searchmoves list) whenever every root pv head is a root move (C05_bestmove); a stop before the first iteration is answered by the first root move (C05_stopped_before_start). Tie: the in-process Search (own table/evaluator, CHESSPP_VERIF hooks) is run on sessions with shared tables, every limit shape (tiny/zero/negative budgets), adversarially poisoned tables (illegal / foreign / NO_MOVE moves, all flags, depths to 200, mate and near-infinite scores, stale epochs), stop after exactly k node visits (k = 0..K) and at every schedule point; every recorded root call is replayed through the extracted model (exact sequence of windows, depths, info lines, bestmove) and checked against the theorem's hypotheses; bestmove and EVERY printed pv are judged by the extracted, proved rules (legal_moves).",
   note="Partial by design: the search below the root (evaluation, table, ordering, pruning) is an adversarial oracle, so 'every pv is a legal line' is established by the differential runs against the proved rules oracle, not by a theorem about the node recursion (planned: node-level skeleton). Termination of the aspiration loop is not a theorem for adversarial oracles (it can oscillate in the model); every run terminated. No axioms.",
   tech="Coq proof over an oracle-parametrised model of the iteration driver + replay of recorded root calls through the extracted model + differential runs judged by the proved rules"),
+ "C08": dict(
+  text="Theorems (constants re-extracted from the source each run): the score encoding announces a mate delivered on the p-th ply as ceil(p/2) MOVES, 'mate n' for the side to move and 'mate -n' against it, for every p up to MAX_DEPTH (C08_announce_win / _loss); values strictly inside the thresholds are printed as centipawns (C08_nonmate_is_cp); the one-ply adjustment on the way up turns 'child mated in k' into 'mate in k+1' and leaves non-mate values alone (C08_adjust_*). Tie: score2str of the implementation equals the model on the whole mate range, the thresholds and sampled ordinary values. The two search-level claims are decided on the implementation by an independent exhaustive solver extracted from the proved rules (forced_mate_within / forced_loss_within): every mate-in-one position (corpus + generated, found by the rules) must be answered by a mating move with final score 'mate 1' at depth 1,2,3; every final 'score mate y' (|y| <= 2 quick, 3 thorough) in sessions along model-driven games (tables carrying earlier real searches), on unbalanced / in-check positions and on the defect replays must be a true forced mate / loss within |y| moves.",
+  note="Partial: soundness of mate claims for ALL positions and table contents is not a theorem (the search below the root is an oracle of the model; a proof needs the node-level skeleton with sound-table invariant, see DESIGN.md) - it is decided by the differential runs against the solver; claims with |y| above the bound are not judged; graph-history effects (rule-50 / repetition inside the tree) are ignored by the solver. No axioms.",
+  tech="Coq proof of the mate-score encoding + exhaustive differential run of score2str + independent exhaustive mate solver extracted from the proved rules"),
  "C09": dict(
   text="Theorems over the same oracle-parametrised model: for ALL oracles the reported iterations are exactly 1,2,...,k consecutively, k <= the depth limit, no root search deeper than the limit is started (C09_depth_sequence); go depth d with d >= 1 uses min(d, MAX_DEPTH), including d above the internal maximum (C09_go_depth, C09_depth_cap, with MAX_DEPTH re-extracted from the source); the answer under searchmoves is one of the given moves (C09_searchmoves). Tie: recorded runs (depth 1..5 with earlier searches in the table, depth 38..INT_MAX on instant positions, forced mates seen before the iteration reaches their length, random searchmoves subsets after an unrestricted search, finite time / clock / node limits) are judged directly and replayed through the extracted model.",
   note="Termination under finite time/clock limits is checked by running (the clock is an oracle in the model; wall-clock duration of an iteration is not a theorem). No axioms.",
